@@ -493,16 +493,16 @@ class TSPkoptEnv(ImprovementEnvBase):
 
                 # Store and Process actions
                 next_of_new_action = rec.gather(1, action)
-                action_index[:, i] = action.squeeze().clone()
-                k_action_left[stopped, i] = action[stopped].squeeze().clone()
-                k_action_right[~stopped, i - 1] = action[~stopped].squeeze().clone()
-                k_action_left[:, i + 1] = next_of_new_action.squeeze().clone()
+                action_index[:, i] = action.squeeze(-1).clone()
+                k_action_left[stopped, i] = action[stopped].squeeze(-1).clone()
+                k_action_right[~stopped, i - 1] = action[~stopped].squeeze(-1).clone()
+                k_action_left[:, i + 1] = next_of_new_action.squeeze(-1).clone()
 
                 # Process if k-opt close
                 if i > 0:
-                    stopped = stopped | (action == next_of_last_action).squeeze()
+                    stopped = stopped | (action == next_of_last_action).squeeze(-1)
                 else:
-                    stopped = (action == next_of_last_action).squeeze()
+                    stopped = (action == next_of_last_action).squeeze(-1)
                 k_action_left[stopped, i] = k_action_left[stopped, i - 1]
                 k_action_right[stopped, i] = k_action_right[stopped, i - 1]
 
@@ -515,12 +515,12 @@ class TSPkoptEnv(ImprovementEnvBase):
                 mask[(visited_time_tag <= visited_time_tag.gather(1, action))] = True
                 if i == 0:
                     mask[visited_time_tag > (gs - 2)] = True
-                mask[stopped, action[stopped].squeeze()] = (
+                mask[stopped, action[stopped].squeeze(-1)] = (
                     False  # allow next k-opt starts immediately
                 )
                 # if True:#i == self.k_max - 2: # allow special case: close k-opt at the first selected node
                 index_allow_first_node = (~stopped) & (
-                    next_of_new_action.squeeze() == action_index[:, 0]
+                    next_of_new_action.squeeze(-1) == action_index[:, 0]
                 )
                 mask[index_allow_first_node, action_index[index_allow_first_node, 0]] = (
                     False
